@@ -31,7 +31,7 @@ from typing import Any, Dict, List, Optional
 import ih5lib
 import reclib
 import vlib
-from props.c01 import KEY_POOL, VALUES, canon_history, targeted, _cap_boundaries
+from props.c01 import VALUES, canon_history, targeted, _cap_boundaries, pick_keys, prefix_patterns
 
 CASE_TIMEOUT = 120     # whole case (a dozen record opens); generous, the machine is shared
 
@@ -52,6 +52,13 @@ def _apply_all(rec, ops) -> List[str]:
         try:
             if op[0] == "bnd":
                 rec.commit_patch()
+                rec.create_patch()
+            elif op[0] == "cc":        # boundary with a refused second commit in between
+                rec.commit_patch()
+                try:
+                    rec.commit_patch()
+                except ValueError:
+                    pass
                 rec.create_patch()
             else:
                 ih5lib.apply_op(rec, op)
@@ -75,6 +82,35 @@ def _try_merge(rec, target: Path, watch: List[Path]) -> Dict[str, Any]:
         res = {"raised": type(e).__name__, "msg": str(e)[:120]}
     after = {str(w): _sha_dir(w) for w in watch}
     res["disk_unchanged"] = before == after
+    return res
+
+
+def _pre_op(rec, op, sdir: Path, mdir: Path) -> Dict[str, Any]:
+    """One operation on the committed source before the merge; outcome + what it changed."""
+    meta0, sha0, shm0 = _meta(rec), _sha_dir(sdir), _sha_dir(mdir)
+    n0 = len(rec.ih5_files)
+    try:
+        k = op[0]
+        if k == "commit":
+            rec.commit_patch()
+        elif k == "discard":
+            rec.discard_patch()
+        elif k == "create":
+            rec.create_patch()
+        elif k == "write":
+            ih5lib.apply_op(rec, op[1])
+        elif k == "merge-existing":
+            rec.merge_files(sdir / "rec")          # the target exists: the source itself
+        else:
+            raise RuntimeError(k)
+        res: Dict[str, Any] = {"op": k, "raised": None}
+    except vlib.CaseTimeout:
+        raise
+    except Exception as e:  # noqa: BLE001
+        res = {"op": k, "raised": type(e).__name__, "msg": str(e)[:100]}
+    res["meta_same"] = _meta(rec) == meta0
+    res["disk_same"] = (_sha_dir(sdir) == sha0 and _sha_dir(mdir) == shm0)
+    res["nfiles_same"] = len(rec.ih5_files) == n0
     return res
 
 
@@ -105,11 +141,28 @@ def observe(case) -> Dict[str, Any]:
                 # -- refusal while there are uncommitted changes
                 out["ref_w"] = _try_merge(rec, mdir / "refused", [sdir, mdir])
                 rec.commit_patch()
+                if case.get("ro"):                     # continue through a read-only handle
+                    rec.close()
+                    rec = cls(sdir / "rec", "r")
+                    opened.append(rec)
+                view_c, meta_c = _view(rec), _meta(rec)
+                # -- failed / refused / undone operations before the merge
+                out["pre"] = [_pre_op(rec, op, sdir, mdir) for op in case.get("pre", [])]
+                out["pre_state_same"] = (_view(rec) == view_c and _meta(rec) == meta_c)
                 files = [Path(f) for f in rec.ih5_files]
                 out["src_abs"] = [reclib.abstract_file(f) for f in files]
                 view0, meta0, sha0 = _view(rec), _meta(rec), _sha_dir(sdir)
                 # -- the merge
-                merged = Path(rec.merge_files(mdir / "merged"))
+                try:
+                    merged = Path(rec.merge_files(mdir / "merged"))
+                except vlib.CaseTimeout:
+                    raise
+                except BaseException as e:  # noqa: BLE001  (AssertionError included)
+                    out["st"] = "merge-failed"
+                    out["merge_err"] = f"{type(e).__name__}: {e}"[:200]
+                    out["m_files"] = sorted(p.name for p in mdir.iterdir())
+                    out["meta_same_after_failed_merge"] = _meta(rec) == meta0
+                    return out
                 view1, meta1, sha1 = _view(rec), _meta(rec), _sha_dir(sdir)
                 out.update(src_view=view0, src_view_after=view1, meta_before=meta0, meta_after=meta1,
                            sha_same=(sha0 == sha1), n_src_files=len(sha0),
@@ -125,7 +178,12 @@ def observe(case) -> Dict[str, Any]:
                 except Exception as e:  # noqa: BLE001
                     out["merged_open_err"] = f"{type(e).__name__}: {e}"[:200]
                 # -- a follow-up patch on the source
-                rec.create_patch()
+                if case.get("ro"):
+                    rec.close()
+                    rec = cls(sdir / "rec", "r+")      # r+ on a committed record starts a new patch
+                    opened.append(rec)
+                else:
+                    rec.create_patch()
                 out["fflags"] = _apply_all(rec, case["follow"])
                 rec.commit_patch()
                 pf = Path(rec.ih5_files[-1])
@@ -207,6 +265,11 @@ _ID_FIELDS = ["rec", "idx", "pid", "ext"]
 def oracle(o: Dict[str, Any], case) -> List[Dict[str, Any]]:
     """Failures of the property on the recorded observations; no model involved."""
     F: List[Dict[str, Any]] = []
+    if o["st"] == "merge-failed":
+        polluted = [r["op"] for r in o["pre"] if r["raised"] and not r["meta_same"]]
+        return [{"cls": "merge-failed",
+                 "what": f"merge_files of a committed record raised {o['merge_err']!r} leaving {o['m_files']} at the target"
+                         + (f"; ih5_meta had been changed by the refused operation(s) {polluted}" if polluted else "")}]
     if o["st"] in ("error", "harness"):
         return [{"cls": "exception", "what": f"unexpected exception while merging / patching / reopening: {o.get('err')}"}]
     if o["st"] != "ok":
@@ -215,6 +278,9 @@ def oracle(o: Dict[str, Any], case) -> List[Dict[str, Any]]:
     r = o["ref_w"]
     if r["raised"] != "ValueError" or not r["disk_unchanged"]:
         F.append({"cls": "uncommitted-not-refused", "what": f"merge with uncommitted changes: {r}"})
+    for r in o.get("pre", []):
+        if r["op"] == "merge-existing" and (r["raised"] is None or not (r["meta_same"] and r["disk_same"] and r["nfiles_same"])):
+            F.append({"cls": "existing-target-not-refused", "what": f"merge onto an existing target: {r}"})
     # merged view = source view
     if "merged_open_err" in o:
         F.append({"cls": "merged-unopenable", "what": f"merged record cannot be opened: {o['merged_open_err']}"})
@@ -290,10 +356,23 @@ def w_shrink(hit):
         return None
     # canonical tiny cases first: they give the same signature whatever history found the failure
     for cand in ([], [["bnd"]], [["set", ["a"], "i:1"], ["bnd"], ["del", ["a"]]]):
-        small = {**case, "ops": cand, "follow": [], "stub": False}
+        small = {**case, "ops": cand, "follow": [], "stub": False, "pre": [], "ro": False}
         f = oracle_fails(small, cls)
         if f:
             return {"case": small, "fail": f}
+    for ro in (False, True):
+        for pre in ([["commit"]], [["discard"]], [["write", ["set", ["a"], "i:1"]]], [["merge-existing"]], [["create"], ["discard"]]):
+            small = {**case, "ops": [], "follow": [], "stub": False, "pre": pre, "ro": ro}
+            f = oracle_fails(small, cls)
+            if f:
+                return {"case": small, "fail": f}
+    if case.get("pre"):
+        if oracle_fails({**case, "pre": []}, cls) is not None:
+            case = {**case, "pre": []}
+        else:
+            case = {**case, "pre": vlib.ddmin(case["pre"], lambda sub: oracle_fails({**case, "pre": sub}, cls) is not None, budget=15)}
+    if case.get("ro") and oracle_fails({**case, "ro": False}, cls) is not None:
+        case = {**case, "ro": False}
     ops = vlib.ddmin(case["ops"], lambda sub: oracle_fails(mk(sub, case["follow"]), cls) is not None, budget=40)
     if len(ops) == 1 and oracle_fails(mk([], case["follow"]), cls) is not None:
         ops = []
@@ -320,7 +399,28 @@ def model_case(case, o) -> Any:
     mfm = case["cls"] == "IH5MFRecord"
     (_, _, rows), names = reclib.to_model_case(mfm, False, o["src_abs"] + [o["merged_abs"]])
     d = names[o["merged_abs"]["dig"]]
-    return [case["ops"], case["follow"], [mfm, False, rows[:-1], d]], rows[-1], rows[:-1], names
+    return [_mops(case["ops"]), case["follow"], [mfm, False, rows[:-1], d, bool(case.get("ro")), _mpre(case.get("pre", []))]], rows[-1], rows[:-1], names
+
+
+def _mops(ops):
+    """History for the model: a boundary with a refused commit in between is a boundary."""
+    return [["bnd"] if o[0] == "cc" else o for o in ops]
+
+
+def _mpre(pre):
+    """Pre-merge operations in the wire format of run_c05 (fresh ids for commits / new patches;
+    a merge onto an existing target is not a record operation of the model)."""
+    out = []
+    for i, op in enumerate(pre):
+        if op[0] == "commit":
+            out.append(["commit", 9000 + 2 * i, 9001 + 2 * i])
+        elif op[0] == "create":
+            out.append(["create", 9500 + i])
+        elif op[0] == "discard":
+            out.append(["discard"])
+        elif op[0] == "write":
+            out.append(["write", op[1]])
+    return out
 
 
 def _row6(meta: Dict[str, Any], names: Dict[str, int]) -> Any:
@@ -343,7 +443,15 @@ def norm_view(v):
 
 def compare_model(case, o, m, exp_row, src_rows) -> List[Dict[str, Any]]:
     D: List[Dict[str, Any]] = []
-    mcont, mview, sview, built, fol, ubr = m
+    mcont, mview, sview, built, fol, (preflags, ubr) = m
+    impl_pre = ["F" if r["raised"] else "T" for r in o["pre"] if r["op"] != "merge-existing"]
+    if impl_pre != preflags:
+        D.append({"kind": "pre-op-outcome", "what": "an operation before the merge is accepted / refused differently from the model (rstep)",
+                  "model": preflags, "impl": [[r["op"], r["raised"]] for r in o["pre"]]})
+    bad = [r for r in o["pre"] if r["raised"] and not (r["meta_same"] and r["disk_same"] and r["nfiles_same"])]
+    if bad or not o["pre_state_same"]:
+        D.append({"kind": "pre-op-frame", "what": "a refused operation (or create..discard) changed the source's files or ih5_meta "
+                                                  "(C05_refused_ops_frame / C05_create_discard_frame)", "impl": bad[:2]})
     flags_s, flags_m, same_patch, v_sp, v_mt, v_mo = fol
     mview, sview, v_sp, v_mt, v_mo = map(norm_view, (mview, sview, v_sp, v_mt, v_mo))
     if built != "T" or same_patch != "T" or mview != sview or not (v_sp == v_mt == v_mo) or flags_s != flags_m:
@@ -384,18 +492,44 @@ def fixed_cases() -> List[Dict[str, Any]]:
     C.append({"cls": "IH5Record", "ops": [], "follow": [], "stub": False})
     C.append({"cls": "IH5MFRecord", "ops": [["bnd"]], "follow": [["set", ["a"], "i:1"]], "stub": True})
     C.append({"cls": "IH5Record", "ops": [["bnd"], ["bnd"]], "follow": [], "stub": False})
+    for i, h in enumerate(prefix_patterns()):      # empty groups beside siblings whose names extend theirs
+        C.append({"cls": "IH5MFRecord" if i % 2 else "IH5Record", "ops": h, "stub": False,
+                  "follow": [["set", ["data", "run1", "y"], "i:7"], ["grp", ["data", "run100"]]]})
+    w = ["write", ["set", ["a", "w"], "i:5"]]
+    for cls in ("IH5Record", "IH5MFRecord"):
+        for ro in (False, True):
+            C.append({"cls": cls, "ops": [["set", ["a", "x"], "i:1"], ["cc"], ["del", ["a", "x"]]], "ro": ro, "stub": False,
+                      "pre": [["commit"], ["discard"], w, ["merge-existing"]] + ([["create"]] if ro else [["create"], w, ["discard"]]) + [["commit"]],
+                      "follow": [["set", ["a", "y"], "i:2"]]})
     return C
+
+
+def gen_pre(rng, ro: bool, wops) -> List[Any]:
+    """Operations on the committed source before the merge that leave it as it is: refused ones
+    (commit / discard / write without a writable container, anything through a read-only handle,
+    a merge onto an existing target) and create_patch .. discard_patch blocks."""
+    pre: List[Any] = []
+    for _ in range(rng.choice([0, 0, 1, 1, 2, 3, 4])):
+        k = rng.choice(["commit", "commit", "discard", "write", "merge-existing", "create"])
+        if k == "write":
+            pre.append(["write", rng.choice(wops)] if wops else ["commit"])
+        elif k == "create" and not ro:
+            pre.append(["create"])
+            pre += [["write", rng.choice(wops)] for _ in range(rng.randint(0, 2)) if wops]
+            pre.append(["discard"])
+        else:
+            pre.append([k])
+    return pre
 
 
 def gen_cases(ctx) -> List[Dict[str, Any]]:
     rng = ctx.rng
     cases = fixed_cases()
-    ntarget = ctx.budget(150, 1600)
-    nrand = ctx.budget(330, 4000)
+    ntarget = ctx.budget(90, 1300)
+    nrand = ctx.budget(200, 3300)
     maxops = ctx.budget(18, 32)
     for i in range(ntarget + nrand):
-        keys = rng.sample(KEY_POOL, rng.randint(3, 5))
-        attr_keys = rng.sample(KEY_POOL, rng.randint(1, 3))
+        keys, attr_keys = pick_keys(rng, 3, 5)
         prefix = targeted(rng, keys, attr_keys) if i < ntarget else None
         n = (len(prefix) + rng.randint(0, 8)) if prefix else rng.randint(3, maxops)
         ops = _cap_boundaries(ih5lib.gen_history(rng, n, p_bnd=rng.choice([0.1, 0.2, 0.35]), keys=keys, attr_keys=attr_keys,
@@ -403,7 +537,12 @@ def gen_cases(ctx) -> List[Dict[str, Any]]:
         nf = rng.randint(0, 7)
         full = ih5lib.gen_history(rng, len(ops) + nf, p_bnd=0.0, keys=keys, attr_keys=attr_keys, prefix=ops, values=VALUES)
         cls = rng.choice(["IH5Record", "IH5MFRecord"])
-        cases.append({"cls": cls, "ops": ops, "follow": full[len(ops):], "stub": cls == "IH5MFRecord" and rng.random() < 0.35})
+        ops = [["cc"] if o[0] == "bnd" and rng.random() < 0.2 else o for o in ops]
+        ro = rng.random() < 0.25
+        wops = [o for o in ih5lib.gen_history(rng, len(ops) + 3, p_bnd=0.0, keys=keys, attr_keys=attr_keys, prefix=_mops(ops),
+                                              values=VALUES, allow_copy=False)[len(ops):]]
+        cases.append({"cls": cls, "ops": ops, "follow": full[len(ops):], "stub": cls == "IH5MFRecord" and rng.random() < 0.35,
+                      "ro": ro, "pre": gen_pre(rng, ro, wops)})
     return cases
 
 
@@ -442,12 +581,12 @@ def run(ctx: vlib.Ctx):
             continue
         mfm = case["cls"] == "IH5MFRecord"
         (_, _, rows), _ = reclib.to_model_case(mfm, False, o["src_abs"])
-        rcases.append([[], [], [mfm, True, rows, 1]])
+        rcases.append([[], [], [mfm, True, rows, 1, False, []]])
         rexp.append(("writable", o["ref_w"]["raised"] == "ValueError"))
         for k in ("stub_abs", "stub2_abs"):
             if k in o and all(x["st"] == "ok" for x in o[k]):
                 (_, _, rows), _ = reclib.to_model_case(True, False, o[k])
-                rcases.append([[], [], [True, False, rows, 1]])
+                rcases.append([[], [], [True, False, rows, 1, False, []]])
                 rexp.append(("stub", o["ref_stub" if k == "stub_abs" else "ref_stub2"]["raised"] == "ValueError"))
     order = list(range(len(mcases)))
     ctx.rng.shuffle(order)          # the runner gets contiguous slices: spread the expensive ones
@@ -469,13 +608,13 @@ def run(ctx: vlib.Ctx):
         conts_hist[str(nb)] = conts_hist.get(str(nb), 0) + 1
         if nb >= 2 and o["src_view"] and "T" in o["fflags"]:
             nontrivial.add(vlib.signature([case["cls"], case["ops"], case["follow"]]))
-        if o["meta_after"] != o["meta_before"] and m[5][0] == "ok":
+        if o["meta_after"] != o["meta_before"] and m[5][1][0] == "ok":
             # does the changed in-memory state match the model of the pinned behaviour?
             got = [_row6(x, names) for x in o["meta_after"]]
-            pinned_match += 1 if [r[:6] for r in m[5][3]] == got else 0
+            pinned_match += 1 if [r[:6] for r in m[5][1][3]] == got else 0
     for rc, (kind, impl_refused), r in zip(rcases, rexp, rres):
-        if r[5] != ["refused", kind] or not impl_refused:
-            disagreements.append({"kind": "refusal", "what": f"model {r[5]} vs implementation refused={impl_refused} ({kind})", "ops": []})
+        if r[5][1] != ["refused", kind] or not impl_refused:
+            disagreements.append({"kind": "refusal", "what": f"model {r[5][1]} vs implementation refused={impl_refused} ({kind})", "ops": []})
 
     for i in (0, len(fixed_cases()) + 1, len(cases) - 1):
         if obs[i]["st"] == "ok":
@@ -498,12 +637,16 @@ def run(ctx: vlib.Ctx):
         small, f = r["case"], r["fail"]
         sig = {"class": f["cls"], "record_class": small["cls"], "history": canon_history(small["ops"]),
                "follow": canon_history(small["follow"]), "fields": f.get("fields")}
+        if small.get("pre") or small.get("ro"):
+            sig["pre"] = [[op[0]] + (canon_history([op[1]]) if op[0] == "write" else []) for op in small.get("pre", [])]
+            sig["read_only_handle"] = bool(small.get("ro"))
         key = vlib.signature(sig)
         if key in seen:
             continue
         seen.add(key)
         per_class[f["cls"]] = per_class.get(f["cls"], 0) + 1
-        ctx.violation(f"{small['cls']}: history {small['ops']} then merge_files, follow-up {small['follow']}: {f['what']}",
+        pre_txt = (f", then {small['pre']}" + (" through a read-only handle" if small.get("ro") else "")) if small.get("pre") or small.get("ro") else ""
+        ctx.violation(f"{small['cls']}: history {small['ops']}{pre_txt} then merge_files, follow-up {small['follow']}: {f['what']}",
                       {"kind": "case", "case": small, "fail": f, "canonical": sig}, sig_obj=sig)
     cov["distinct_minimal_failures_by_class"] = per_class
     if unconfirmed:
@@ -516,8 +659,11 @@ def run(ctx: vlib.Ctx):
     cov["distinct_nontrivial"] = len(nontrivial)
     cov["rule"] = ("C01 generators (fixed patterns, targeted shapes replace-then-touch / create below deleted ancestors / copy into own "
                    "subtree / attribute carriers on datasets, shadow-tree-biased random histories with malformed operations; per-history "
-                   "alphabet of 3-5 keys from printable ASCII without '@' and '/'; 1-6 containers) on IH5Record and IH5MFRecord, each "
-                   "followed by merge_files and a random follow-up patch of 0-7 operations continuing the same generator; stub sets built "
+                   "alphabet of 3-5 keys from printable ASCII without '@' and '/', one time in three a family of names that are prefixes of each "
+                   "other, plus the shape 'empty group beside a sibling whose name extends its own' at depth 1-3; 1-6 containers) on IH5Record and IH5MFRecord, each "
+                   "followed by operations that leave the committed source as it is (refused commit / discard / write, a merge onto an "
+                   "existing target, create_patch..writes..discard_patch; in a quarter of the cases through a read-only handle; refused "
+                   "second commits also inside the history), then merge_files and a random follow-up patch of 0-7 operations continuing the same generator; stub sets built "
                    "with IH5MFRecord.create_stub from the newest manifest (bare stub and stub + patch); non-trivial = distinct case with "
                    ">= 2 source containers, a non-empty view and a succeeding follow-up operation")
     cov["input_distribution"] = {"cases": len(cases), "evaluated": len(mcases), "containers_per_source": conts_hist,
